@@ -42,6 +42,7 @@ fn dispatch(line: &str) -> String {
     "2x2c" => hist::run_history::<C2x2>(line),
     "3x1c" => hist::run_history::<C3x1>(line),
     "8x8c" => hist::run_history::<C8x8>(line),
+    "8x8k" => hist::run_history::<K8x8>(line),
     "24x8c" => hist::run_history::<C24x8>(line),
     "16x16c" => hist::run_history::<C16x16>(line),
     "64x64c" => hist::run_history::<C64x64>(line),
